@@ -245,6 +245,22 @@ func (d SArr) Process() (string, error) {
 	return fSArr(d.R.tag, vsS(d.Values)), nil
 }
 
+// SArr2 has two array inputs.
+type SArr2 struct {
+	Values []nodes.NodeOutput[string]
+	More   []nodes.NodeOutput[string]
+	R      *rec
+}
+
+func (d SArr2) Process() (string, error) {
+	d.R.hit()
+	return fSArr2(d.R.tag, vsS(d.Values), vsS(d.More)), nil
+}
+
+func fSArr2(tag int, a, b []string) string {
+	return "A" + strconv.Itoa(tag) + "[" + strings.Join(a, ",") + "]{" + strings.Join(b, ",") + "}"
+}
+
 type SMix struct {
 	Values []nodes.NodeOutput[string]
 	A      nodes.NodeOutput[string]
@@ -481,6 +497,7 @@ const (
 	kFAtan
 	kFsFmt
 	kMFmt
+	kSArr2
 )
 
 var kinds = []kind{
@@ -505,6 +522,7 @@ var kinds = []kind{
 	kFAtan: {name: "FAtan", out: tS, named: []inSpec{{"A", tF}, {"B", tF}}},
 	kFsFmt: {name: "FsFmt", out: tS, named: []inSpec{{"In", tFs}}},
 	kMFmt:  {name: "MFmt", out: tS, named: []inSpec{{"In", tM}}},
+	kSArr2: {name: "SArr2", out: tS, arr: &inSpec{"Values", tS}}, // plus a second array input "More" (phase large-fan-in only)
 }
 
 var eagerKinds = []int{kU1, kS2, kS3, kSArr, kSMix, kI2, kIArr, kSLen, kIFmt, kChkI, kChkS, kChkI, kChkS}
